@@ -24,6 +24,9 @@ pub enum Prop {
     C08,
     C13,
     C14,
+    /// priorities, judged on every scheduling round of a reachable state (the static half is
+    /// Engine G)
+    C15,
 }
 
 impl Prop {
@@ -39,6 +42,7 @@ impl Prop {
             Prop::C08 => "C08",
             Prop::C13 => "C13",
             Prop::C14 => "C14",
+            Prop::C15 => "C15",
         }
     }
     pub fn parse(s: &str) -> Option<Prop> {
@@ -53,6 +57,7 @@ impl Prop {
             "C08" => Prop::C08,
             "C13" => Prop::C13,
             "C14" => Prop::C14,
+            "C15" => Prop::C15,
             _ => return None,
         })
     }
@@ -620,6 +625,29 @@ impl Monitor {
                     }
                 }
                 Obs::Round(_) => {}
+            }
+        }
+
+        // ---- C15: the pairwise priority oracle of Engine G on this round, in this reachable state ----
+        if self.on(Prop::C15)
+            && matches!(ev, Some(Ev::Sched))
+            && let Some(pre) = pre
+        {
+            let rounds: Vec<&tako::verif::RoundReport> =
+                obs.iter().filter_map(|o| if let Obs::Round(r) = o { Some(r) } else { None }).collect();
+            if rounds.len() == 1 {
+                let o = crate::sched::Outcome {
+                    before: pre.core.clone(),
+                    after: post.core.clone(),
+                    reports: vec![rounds[0].clone()],
+                    table: sys.server.request_table(),
+                    now_ms: 0,
+                    setup_rounds: 0,
+                };
+                if let Some(inv) = crate::sched::c15_oracle(&o).into_iter().next() {
+                    let site = if inv.same_class { "same-request-class" } else { "other-request-class" };
+                    self.v(Prop::C15, "priority-inversion-in-reachable-state", site, inv.detail);
+                }
             }
         }
 
